@@ -155,6 +155,20 @@ m('panic1-new-panic', 'PANIC1', 'index.CreateIndex/panic', ('index/index.go', ''
 	}
 	panic("unknown index type")
 }'''))
+m('ops4-and-evaluated-as-or', 'OPS4', 'And(', ('query/criteria.go', '''	if c.OpType == LogicalAnd {
+		return c.C1.Satisfy(doc) && c.C2.Satisfy(doc)
+	}''', '''	if c.OpType == LogicalAnd {
+		return c.C1.Satisfy(doc) || c.C2.Satisfy(doc)
+	}'''))
+m('ops4-gt-includes-equal', 'OPS4', 'GtOp with compare = 0', ('query/criteria.go', '''	case GtOp:
+		return res > 0''', '''	case GtOp:
+		return res >= 0'''))
+m('ops4-not-identity', 'OPS4', 'Not(', ('query/criteria.go', '''	return !c.C.Satisfy(doc)''', '''	return c.C.Satisfy(doc)'''))
+m('ops4-or-builder-builds-and', 'OPS4', 'builder or', ('query/criteria.go', '''func or(c1, c2 Criteria) Criteria {
+	return &BinaryCriteria{
+		OpType: LogicalOr,''', '''func or(c1, c2 Criteria) Criteria {
+	return &BinaryCriteria{
+		OpType: LogicalAnd,'''))
 # ---- IDX / ID
 m('idx1-save-without-index-add', 'IDX1', 'DB.UpdateById/save', ('db.go', '''	if err := db.addDocToIndexes(tx, indexes, updatedDoc); err != nil {
 		return err
